@@ -345,7 +345,7 @@ namespace {
    {
       init();
       for (auto& o : g_owners) {
-         if (not o.dirty) continue;
+         if (not o.dirty or &o == &g_owners[process_owner]) continue;
          for (auto& r : o.small) region_reset(r);
          region_reset(o.large);
          o.live_head = nullptr;
@@ -406,7 +406,7 @@ namespace {
    {
       if (owner >= 0) return g_owners[owner].nlive;
       size_t n = 0;
-      for (auto& o : g_owners) n += o.nlive;
+      for (auto& o : g_owners) if (&o != &g_owners[process_owner]) n += o.nlive;
       return n;
    }
 
@@ -414,7 +414,7 @@ namespace {
    {
       if (owner >= 0) return g_owners[owner].live_bytes;
       uint64_t n = 0;
-      for (auto& o : g_owners) n += o.live_bytes;
+      for (auto& o : g_owners) if (&o != &g_owners[process_owner]) n += o.live_bytes;
       return n;
    }
 
@@ -422,7 +422,7 @@ namespace {
    {
       size_t k = 0;
       for (int i = 0; i < max_owners; ++i) {
-         if (owner >= 0 and owner != i) continue;
+         if (owner >= 0 ? owner != i : i == process_owner) continue;
          for (Hdr* h = g_owners[i].live_head; h != nullptr and k < max; h = h->lnext)
             out[k++] = LiveInfo{ user_of(h), h->req, h->op, i, h->serial };
       }
